@@ -313,7 +313,7 @@ def run(ctx):
         kind = rng.choice(["BTree", "BTree", "TreeSet"])
         fn = rng.choice(ALL_FAMS)
         ml, mi = rng.choice(SIZES)
-        mode = rng.choice({"O": ["none-int", "str", "int"]}.get(fn[0], [None, "extreme"] if fn != "fs" else [None]))
+        mode = rng.choice({"O": ["none-int", "str", "int"]}.get(fn[0], [None, "extreme"]))
         if mode == "none-int":
             mode = "int"   # model keys 2k-1 may be negative probes; None is exercised in C01
         envs = {impl: TreeEnv(fn, kind, impl, mode) for impl in ("C", "Py")}
